@@ -1038,6 +1038,29 @@ Proof.
   split; [vm_compute; reflexivity|split; [vm_compute; reflexivity|split; vm_compute; reflexivity]].
 Qed.
 
+(* a trivia-only replacement (clone_with_leading_trivia), through both interfaces: only the bytes of the
+   token's leading trivia change *)
+Lemma replace_trivia_local :
+  forall k cs l i t tr, let g := GNode k cs l in
+    nth_error (leaves g) i = Some t ->
+    let t' := clone_with_leading_trivia t tr in
+    let g1 := token_rewrite nat_hook (replace_nth_t i t') nat_hook 0%nat g in
+    let g2 := rewrite (replace_nth_e i t') 0%nat g in
+    let pre := concat (map token_bytes (firstn i (leaves g))) in
+    let post := t_text t ++ concat (map token_bytes (skipn (S i) (leaves g))) in
+    bytes_of g = pre ++ trivia_bytes (t_trivia t) ++ post /\
+    bytes_of g1 = pre ++ trivia_bytes tr ++ post /\ bytes_of g2 = pre ++ trivia_bytes tr ++ post /\
+    len_ok g1 = true /\ len_ok g2 = true.
+Proof.
+  intros k cs l i t tr g Hn t' g1 g2 pre post.
+  destruct (replace_one_token_local_t k cs l i t t' Hn) as (A & B & _ & D).
+  destruct (replace_one_token_local_e k cs l i t t' Hn) as (_ & B2 & _ & D2).
+  subst pre post. unfold token_bytes at 2 in A. unfold token_bytes at 2 in B. unfold token_bytes at 2 in B2.
+  cbn [t_trivia t_text clone_with_leading_trivia t'] in *.
+  rewrite <- !app_assoc in A, B, B2.
+  repeat split; assumption.
+Qed.
+
 (* ---- glue with the lexer proofs (added by the coordinator) ---- *)
 From RH Require Import Lex.SynLexerProofs.
 
